@@ -433,6 +433,25 @@ fn name_frames(s: &[u8]) -> Vec<(&'static str, Fam, Vec<u8>, bool)> {
             },
         );
         v.push(("will topic", fam, model::serialize(&cn).unwrap_or_default(), false));
+        if fam == Fam::V3 {
+            // the same under the MQTT 3.1 protocol level
+            let cn = WPacket::new(
+                fam,
+                0x10,
+                Body::Connect {
+                    name: b"MQIsdp".to_vec(),
+                    level: 3,
+                    flags: 0b0010_1110,
+                    keep_alive: 1,
+                    props: None,
+                    client_id: b"c".to_vec(),
+                    will: Some(Will { props: None, topic: s.to_vec(), payload: b"w".to_vec() }),
+                    username: None,
+                    password: None,
+                },
+            );
+            v.push(("will topic (MQTT 3.1 CONNECT)", fam, model::serialize(&cn).unwrap_or_default(), false));
+        }
     }
     let rp = Props { items: vec![Prop { id: 0x08, val: PVal::Str(s.to_vec()) }], declared: None, width: 0 };
     let pb = WPacket::new(Fam::V5, 0x30, Body::Publish { topic: b"t".to_vec(), pid: None, props: Some(rp.clone()), payload: vec![] });
@@ -610,6 +629,37 @@ fn c18_single(input: &Input, ctx: &mut Ctx) -> CaseResult {
     });
     ctx.sample(|| format!("{} bytes {:?}.. -> {}", s.len(), s.chars().take(24).collect::<String>(), if v { "valid" } else { "invalid" }));
     Ok(())
+}
+
+
+/// Deep hierarchies: the specification limits a topic to 65,535 bytes, not to a number of levels. Levels of every
+/// depth 1..=300, and a few up to the deepest that fits, in several shapes (valid and invalid ones).
+pub fn deep_strings(filters: bool) -> Vec<Input> {
+    let mut v = Vec::new();
+    let depths: Vec<usize> = (1..=300).chain([511, 512, 513, 1_000, 4_096, 10_000, 21_844, 32_767, 32_768, 65_534]).collect();
+    for d in depths {
+        let mut shapes: Vec<String> = vec![
+            format!("{}a", "a/".repeat(d)),
+            "/".repeat(d),
+            format!("{}\u{e9}", "x/".repeat(d)),
+        ];
+        if filters {
+            shapes.push(format!("{}#", "a/".repeat(d)));
+            shapes.push(format!("{}+", "+/".repeat(d)));
+            shapes.push(format!("$share/g/{}a", "a/".repeat(d)));
+            shapes.push(format!("$share/g/{}#", "+/".repeat(d)));
+            shapes.push(format!("{}#/a", "a/".repeat(d))); // invalid: '#' not last
+        } else {
+            shapes.push(format!("$SYS/{}a", "a/".repeat(d)));
+            shapes.push(format!("{}+", "a/".repeat(d))); // invalid: wildcard in a name
+        }
+        for s in shapes {
+            if s.len() <= 65_600 {
+                v.push(Input::Text(s.into_bytes()));
+            }
+        }
+    }
+    v
 }
 
 pub fn long_names() -> Vec<Input> {
@@ -1136,6 +1186,69 @@ fn nested_blocks(alpha: usize, nprefix: usize, max_len: usize) -> Vec<Input> {
     v
 }
 
+
+// ---------------------------------------------------------------------------------------
+// C17 over a history: comparisons must not depend on how many other filters are alive or were built before
+
+fn population_text(i: u64) -> String {
+    match i % 4 {
+        0 => format!("$share/g{}/p/{}/+", i % 7, i),
+        1 => format!("p/{}/#", i),
+        2 => format!("p/+/{}", i),
+        _ => format!("\u{e9}/{}", i),
+    }
+}
+
+/// nums = [population size]: that many distinct filters are built and kept alive; then filters from the beginning,
+/// the middle and the end of the population are built again from their text (constructor and SUBSCRIBE decoder) and
+/// compared with the ones that are held.
+fn c17_population(input: &Input, ctx: &mut Ctx) -> CaseResult {
+    let n = input.nums()[0];
+    let mut held: Vec<TopicFilter> = Vec::with_capacity(n as usize);
+    for i in 0..n {
+        let t = population_text(i);
+        held.push(TopicFilter::try_from(t.clone()).map_err(|e| Violation::new(format!("valid filter {:?} refused: {:?}", t, e)))?);
+    }
+    let mut probes: Vec<u64> = (0..64).chain((0..n).step_by((n as usize / 1500).max(1))).chain(n.saturating_sub(64)..n).collect();
+    probes.sort_unstable();
+    probes.dedup();
+    for &i in &probes {
+        let t = population_text(i);
+        let h = &held[i as usize];
+        ensure!(**h == *t && h.to_string() == t, "filter {} of a population of {} reads back as {:?} instead of {:?}", i, n, &**h, t);
+        let again = TopicFilter::try_from(t.clone()).map_err(|e| Violation::new(format!("{:?}", e)))?;
+        let dec = decoded_filter(&t).ok_or_else(|| Violation::new(format!("SUBSCRIBE carrying valid filter {:?} was not decoded", t)))?;
+        for (x, how) in [(&again, "the constructor"), (&dec, "decoding a SUBSCRIBE")] {
+            ensure!(x == h && h == x, "with {} filters alive, {:?} built again by {} is not equal to the one built earlier from the same text", n, t, how);
+            ensure!(x.cmp(h) == std::cmp::Ordering::Equal && h.partial_cmp(x) == Some(std::cmp::Ordering::Equal), "with {} filters alive, {:?} built again by {} does not compare Equal to the earlier one", n, t, how);
+            ensure!(hash_of(x) == hash_of(h), "with {} filters alive, {:?} built again by {} hashes differently from the earlier one", n, t, how);
+            ensure!(x.shared_info() == h.shared_info(), "with {} filters alive, {:?} built again by {} reports share {:?} instead of {:?}", n, t, how, x.shared_info(), h.shared_info());
+        }
+        if i + 1 < n {
+            let other = &held[i as usize + 1];
+            ensure!(again != *other && again.cmp(other) != std::cmp::Ordering::Equal, "filters with different texts {:?} / {:?} compare equal", t, &**other);
+        }
+        if t.starts_with("$share/") {
+            check_shared_parts(&t).map_err(Violation::new)?;
+        }
+    }
+    // the population is dropped and its first texts are built once more
+    drop(held);
+    for i in 0..64.min(n) {
+        let t = population_text(i);
+        let a = TopicFilter::try_from(t.clone()).map_err(|e| Violation::new(format!("{:?}", e)))?;
+        let b = TopicFilter::try_from(t.clone()).map_err(|e| Violation::new(format!("{:?}", e)))?;
+        ensure!(a == b && hash_of(&a) == hash_of(&b) && *a == *t, "after a population of {} filters was dropped, two filters built from {:?} differ", n, t);
+    }
+    ctx.more_evals(probes.len() as u64);
+    ctx.count_distinct(probes.len() as u64);
+    ctx.label(if n > (1 << 20) { "population>2^20" } else if n > (1 << 16) { "population>2^16" } else { "population-small" });
+    ctx.sample(|| format!("{} distinct filters alive; {} of them rebuilt from text and compared", n, probes.len()));
+    Ok(())
+}
+
+pub const C17_POPULATION: Sub = Sub { name: "c17.population", f: c17_population };
+
 pub const C16_RUNS: Sub = Sub { name: "c16.runs", f: c16_runs };
 pub const C18_RUNS: Sub = Sub { name: "c18.runs", f: c18_runs };
 pub const C16_RANDOM: Sub = Sub { name: "c16.random-long", f: c16_random };
@@ -1151,7 +1264,7 @@ pub const C18_BLOCK: Sub = Sub { name: "c18.block", f: c18_block };
 pub const C18_SINGLE: Sub = Sub { name: "c18.single", f: c18_single };
 
 pub fn subs() -> Vec<Sub> {
-    vec![C16_CODEPOINTS, C17_CODEPOINTS, C18_CODEPOINTS, C16_NESTED, C17_NESTED, C18_NESTED, C16_RUNS, C18_RUNS, C16_BLOCK, C16_SINGLE, C16_RANDOM, C17_BLOCK, C17_SINGLE, C17_TRIPLE, C17_RANDOM, C18_BLOCK, C18_SINGLE, C18_RANDOM]
+    vec![C17_POPULATION, C16_CODEPOINTS, C17_CODEPOINTS, C18_CODEPOINTS, C16_NESTED, C17_NESTED, C18_NESTED, C16_RUNS, C18_RUNS, C16_BLOCK, C16_SINGLE, C16_RANDOM, C17_BLOCK, C17_SINGLE, C17_TRIPLE, C17_RANDOM, C18_BLOCK, C18_SINGLE, C18_RANDOM]
 }
 
 const BLOCK: u64 = 4_096;
@@ -1180,6 +1293,7 @@ pub fn run_c16(env: &mut Env) -> RunResult {
     let n = b.len() as u64;
     env.run_enum(C16_BLOCK, n, true, move |i| b[i as usize].clone())?;
     env.run_inputs(C16_SINGLE, &long_filters())?;
+    env.run_inputs(C16_SINGLE, &deep_strings(true))?;
     // the defect repaired by 2d36388 and the shapes named in the property, as a regression tier
     let reg: Vec<Input> = ["+x", "a/+x", "$share/g/+x", "$share/g/+$", "+/", "#", "a/#", "a/#/b", "$share//a", "$share/g/", "$share/g", "$share/a+/b", "$share/a#/b", "$share/g/#", "$share/\u{e9}/\u{1F600}", "/", "//", "a\0"]
         .iter()
@@ -1215,7 +1329,7 @@ pub fn run_c17(env: &mut Env) -> RunResult {
     let b = blocks(FILTER_ALPHA.len(), FILTER_PREFIXES.len(), ml, mlp);
     let n = b.len() as u64;
     env.run_enum(C17_BLOCK, n, true, move |i| b[i as usize].clone())?;
-    let long: Vec<Input> = long_filters().into_iter().filter(|i| std::str::from_utf8(i.bytes()).map(specpred::filter_valid).unwrap_or(false)).collect();
+    let long: Vec<Input> = long_filters().into_iter().chain(deep_strings(true).into_iter().step_by(7)).filter(|i| std::str::from_utf8(i.bytes()).map(specpred::filter_valid).unwrap_or(false)).collect();
     env.run_inputs(C17_SINGLE, &long)?;
     let reg: Vec<Input> = ["$share/g/a", "$share/g//", "$share/g//a", "$share/\u{e9}\u{1F600}/\u{e9}", "$share/$share/$share/x", "$share/g/#", "$share/g/+/+", "/a", "$SYS/a", "$sharex/a/b"]
         .iter()
@@ -1229,6 +1343,10 @@ pub fn run_c17(env: &mut Env) -> RunResult {
     env.run_enum(C17_NESTED, nn, true, move |i| nb[i as usize].clone())?;
     env.require("c17.nested-prefixes", "shared-filters");
     env.run_tapes(C17_RANDOM, env.tier.sel(4_000, 600_000), 60)?;
+    // populations just above the sizes a table might be capped at
+    let pops: Vec<Input> = if env.thorough() { vec![300, 65_537 + 1_000, (1 << 20) + 70_000, (1 << 22) + 70_000] } else { vec![300, 65_537 + 1_000, (1 << 20) + 70_000] }.into_iter().map(|n: u64| Input::Nums(vec![n])).collect();
+    env.run_inputs(C17_POPULATION, &pops)?;
+    env.require("c17.population", "population>2^20");
     env.require("c17.random", "multi-byte-share-name");
     env.require("c17.random", "shared-filter-begins-with-slash");
     env.require("c17.block", "shared-filters");
@@ -1242,6 +1360,7 @@ pub fn run_c18(env: &mut Env) -> RunResult {
     let n = b.len() as u64;
     env.run_enum(C18_BLOCK, n, true, move |i| b[i as usize].clone())?;
     env.run_inputs(C18_SINGLE, &long_names())?;
+    env.run_inputs(C18_SINGLE, &deep_strings(false))?;
     env.run_enum(C18_CODEPOINTS, CP_BLOCKS, true, |i| Input::Nums(vec![i * CP_BLOCK, CP_BLOCK]))?;
     env.require("c18.codepoints", "valid");
     env.require("c18.codepoints", "invalid");
